@@ -307,7 +307,7 @@ static void run_child(void *a, int fd) {
     size_t off = 0;
     while (off < o.len) { ssize_t w = __real_write(fd, o.d + off, o.len - off); if (w <= 0) break; off += (size_t)w; }
 }
-static const char *asan_site(Buf *asan, char *kind, size_t ksz, char *site, size_t ssz) {
+const char *asan_site(Buf *asan, char *kind, size_t ksz, char *site, size_t ssz) {
     /* first line: "==pid==ERROR: AddressSanitizer: <kind> ..." ; frames "#n 0x.. in func file:line" */
     kind[0] = site[0] = 0;
     if (!asan->len) return NULL;
@@ -319,7 +319,7 @@ static const char *asan_site(Buf *asan, char *kind, size_t ksz, char *site, size
         p += 4;
         char *eol = strchr(p, '\n'); size_t l = eol ? (size_t)(eol - p) : strlen(p);
         char line[256]; if (l >= sizeof line) l = sizeof line - 1; memcpy(line, p, l); line[l] = 0;
-        if (strstr(line, "/repo/src/") || strstr(line, "src/")) {
+        if (strstr(line, "/repo/src/")) {
             /* "func /repo/src/x.c:123" -> func@x.c */
             char fn[96] = "", file[160] = "";
             sscanf(line, "%95s %159s", fn, file);
